@@ -365,13 +365,20 @@ class _ImmutableTaskList:
         return self._list.__add__(_to_list(other))
 
     def __lshift__(self, other: Union['Task', Iterable['Task']]):
+        # check all tasks first: a refusal must not leave part of the list linked
+        others = _to_list(other)
         for t in self:
-            t.predecessors += other
+            t._check_predecessors(t.predecessors + others)
+        for t in self:
+            t.predecessors += others
         return other
 
     def __rshift__(self, other: Union['Task', Iterable['Task']]):
+        others = _to_list(other)
         for t in self:
-            t.successors += other
+            t._check_successors(t.successors + others)
+        for t in self:
+            t.successors += others
         return other
 
     def __getitem__(self, query):
@@ -860,6 +867,20 @@ class Task:
         Setter for predecessor tasks
         :param value: new predecessors
         """
+        value = self._check_predecessors(value)
+
+        for v in self.__predecessors:
+            if self in v.__successors:
+                v.__successors.remove(self)
+
+        self.__predecessors = [v for v in value]
+
+        for v in value:
+            if self not in v.__successors:
+                v.__successors.append(self)
+
+    def _check_predecessors(self, value: Union['Task', Iterable['Task']]) -> List['Task']:
+        """Checks that value can be assigned to predecessors; changes nothing"""
         value = _to_list(value)
         _check_no_nones_in_list(value, 'predecessors')
 
@@ -877,15 +898,7 @@ class Task:
             if self in v.all_predecessors:
                 raise RuntimeError(f"{self.id} exists in {v.id} predecessors. Cyclic dependency")
 
-        for v in self.__predecessors:
-            if self in v.__successors:
-                v.__successors.remove(self)
-
-        self.__predecessors = [v for v in value]
-
-        for v in value:
-            if self not in v.__successors:
-                v.__successors.append(self)
+        return value
 
     @property
     def all_predecessors(self) -> _ImmutableTaskList:
@@ -911,6 +924,20 @@ class Task:
         Setter for direct successors
         :param value: new direct successors
         """
+        value = self._check_successors(value)
+
+        for v in self.__successors:
+            if self in v.__predecessors:
+                v.__predecessors.remove(self)
+
+        self.__successors = [v for v in value]
+
+        for v in value:
+            if self not in v.__predecessors:
+                v.__predecessors.append(self)
+
+    def _check_successors(self, value: Union['Task', Iterable['Task']]) -> List['Task']:
+        """Checks that value can be assigned to successors; changes nothing"""
         value = _to_list(value)
         _check_no_nones_in_list(value, 'successors')
 
@@ -928,15 +955,7 @@ class Task:
             if self in v.all_successors:
                 raise RuntimeError(f"{self.id} exists in {v.id} successors. Cyclic dependency")
 
-        for v in self.__successors:
-            if self in v.__predecessors:
-                v.__predecessors.remove(self)
-
-        self.__successors = [v for v in value]
-
-        for v in value:
-            if self not in v.__predecessors:
-                v.__predecessors.append(self)
+        return value
 
     @property
     def all_successors(self) -> _ImmutableTaskList:
